@@ -511,11 +511,13 @@ def _run(chk, wd, proved):
     cov['rule'] = ('evaluations = stripEscapes strings + single-channel runs + multi-process histories; exhaustive: every string '
                    'of <= 6 symbols over {ESC,[,m,3,x} (thorough: +A, <= 7) for stripEscapes; every fragmentation of every stream of <= 3 pieces '
                    '(<= 4 over 5 pieces) of escape/tag pieces with strip_ansi on; every operation sequence of length <= %d over an '
-                   '18-operation alphabet (3 processes: spawn ok / fork failure / pipe failure, writes, fragmented reads, exit, '
-                   'reap, unrelated open/close) followed by a flush-and-reap epilogue; every cut point of 6 streams with 0-2 capture '
+                   '21-operation alphabet (3 processes: spawn ok / fork failure / pipe failure, writes, fragmented reads, exit, '
+                   'reap, unrelated open/close, log reopen, clearProcessLogs) followed by a flush-and-reap epilogue; every cut point of 6 streams with 0-2 capture '
                    'sections where the part after the cut is still in the pipe at reap (capture on stdout / through redirect / on '
                    'stderr / off); 1, 8191, 8192, 8193, 40000, 65536 bytes still unread in the stdout and/or stderr pipe at reap '
-                   '(pipe capacity 64 KiB; the seam read honours the requested size); plus the descriptor-reuse scenarios and random '
+                   '(pipe capacity 64 KiB; the seam read honours the requested size); a read error (EIO/EBADF) on one channel during the '
+                   'drain with output pending on the other; rotating logs (maxbytes 16, backups 2/1/0) with a reopen request at every '
+                   'position (judged only); logfile NONE / AUTO; plus the descriptor-reuse scenarios and random '
                    'long histories; distinct_nontrivial = distinct trace checksums of histories (all contain at least one spawn) '
                    'and distinct stripEscapes outcomes' % (3 if chk.tier == 'quick' else 4))
     cov['samples'] = [_json_job(hjobs[len(hjobs) // 3][1]), _json_job(hjobs[-1][1])]
